@@ -160,9 +160,13 @@ class GroupOutput(PartFlowController):
             raise RuntimeError(f'Part {part.name} is trying to exit Group {self._group.name}'
                                +f' but does not contain information on which GroupPath to use.')
 
+        # The part has left this group before it is offered downstream: a
+        # nested group's output reached in the same call must see the
+        # path of the enclosing group, not this one.
+        part._group_pathing.pop()
         did_pass = last_entered_group._pass_part_downstream(part)
-        if did_pass:
-            part._group_pathing.pop()
+        if not did_pass:
+            part._group_pathing.append(last_entered_group)
         return did_pass
 
     def _add_downstream(self, downstream):
